@@ -562,14 +562,15 @@ TowerLogB(re, base, ord) ==
 ElemB(ty, fn, x) == ChainB(ty, x, TowerB(fn, x.re, Order(ty)))
 LogB(ty, x, base) == ChainB(ty, x, TowerLogB(x.re, base, Order(ty)))
 
-\* fn powi(&self, exp: i32).  The products exp*(exp-1)*(exp-2) are formed in i32 in the
-\* code; CoefI32 makes that explicit (see Power.tla for the overflow analysis).
+\* fn powi(&self, exp: i32).  exp - 3 is formed in i32 (Power.tla), the coefficients
+\* exp, exp*(exp-1), exp*(exp-1)*(exp-2) as products in F (since the repair "fix: powi
+\* coefficients overflowed i32").
 PowiTowerB(re, n, ord) ==
     LET pow3 == SPowi(re, n - 3)
         f0 == ((pow3 (.) re) (.) re) (.) re
         f1 == SMulF((pow3 (.) re) (.) re, QInt(n))
-        f2 == G2(ord, SMulF(pow3 (.) re, QInt(n * (n - 1))))
-        f3 == G3(ord, SMulF(pow3, QInt(n * (n - 1) * (n - 2))))
+        f2 == G2(ord, SMulF(pow3 (.) re, QMul(QInt(n), QInt(n - 1))))
+        f3 == G3(ord, SMulF(pow3, QMul(QMul(QInt(n), QInt(n - 1)), QInt(n - 2))))
     IN  <<f0, f1, f2, f3>>
 PowiB(ty, x, n) ==
     CASE n = 0 -> OneB(ty)
@@ -578,16 +579,16 @@ PowiB(ty, x, n) ==
       [] OTHER -> ChainB(ty, x, PowiTowerB(x.re, n, Order(ty)))
 
 \* fn powf(&self, n: F); nq is the exponent as a rational, near2 tells whether
-\* |n - 2| < F::epsilon() (decided by the caller, who knows the float format)
+\* |n - 2| < F::epsilon() (decided by the caller, who knows the float format).
+\* One power per order (since the repair "fix: powf returned NaN at zero ..."; before,
+\* every entry was x^(n-3) multiplied back up by x, i.e. infinity * 0 at x = 0).
 PowfTowerB(re, nq, ord) ==
     LET n1 == QSub(nq, Q1)
         n2 == QSub(n1, Q1)
-        n3 == QSub(n2, Q1)
-        pow3 == SPowf(re, n3)
-        f0 == ((pow3 (.) re) (.) re) (.) re
-        f1 == SMulF((pow3 (.) re) (.) re, nq)
-        f2 == G2(ord, SMulF(SMulF(pow3 (.) re, nq), n1))
-        f3 == G3(ord, SMulF(SMulF(SMulF(pow3, nq), n1), n2))
+        f0 == SPowf(re, nq)
+        f1 == SMulF(SPowf(re, n1), nq)
+        f2 == G2(ord, SMulF(SMulF(SPowf(re, n2), nq), n1))
+        f3 == G3(ord, SMulF(SMulF(SMulF(SPowf(re, QSub(n2, Q1)), nq), n1), n2))
     IN  <<f0, f1, f2, f3>>
 PowfB(ty, x, nq, near2) ==
     CASE QIsZero(nq) -> OneB(ty)
